@@ -78,6 +78,15 @@ pub fn adjust(s: &mut TypeSpec, d: &mut Dna) -> bool {
         } else {
             (lo, hi)
         };
+        // an alignment request next to the integer type (in the same attribute or in one of its own, see the renderer)
+        if !c_alone && !with_c && d.chance(if r == "u128" { 60 } else { 20 }) {
+            let al = ["align(16)", "align(2)", "align(64)"][d.pick(3)];
+            s.repr = Some(if d.chance(if r == "u128" { 80 } else { 50 }) { format!("{r}, {al}") } else { format!("{al}, {r}") });
+            // mostly in attributes of their own: a reader that handles one #[repr] at a time must remember the integer type
+            if d.chance(70) {
+                s.split |= 0x40;
+            }
+        }
         let r = if c_alone { "C" } else { r };
         let nv = s.variants.len() as i128;
         let mut cands: Vec<i128> = vec![lo, lo + 1, lo + nv, 2147483647, 2147483648, 2147483649, 4294967290, -129, -128, -127, -5, -2, -1, 0, 1, 2, 100, 126, 127, 128, 255, 256, 32767, 65535, hi - nv - 1, hi - nv, hi / 2];
@@ -97,7 +106,8 @@ pub fn adjust(s: &mut TypeSpec, d: &mut Dna) -> bool {
         // the upper half of u128: the discriminants of a prefix of the variants (often all of them) are written 2^127
         // higher than the model's value; the first variant and the first variant after the prefix are explicit so that no
         // implicit discriminant continues across the boundary
-        if ok && r == "u128" && !with_c && d.chance(50) && ds.iter().all(|x| *x >= 0 && *x < (1i128 << 126)) {
+        let aligned = s.repr.as_deref().map(|x| x.contains("align")).unwrap_or(false);
+        if ok && r == "u128" && !with_c && d.chance(if aligned { 90 } else { 50 }) && ds.iter().all(|x| *x >= 0 && *x < (1i128 << 126)) {
             if s.variants[0].disc.is_none() {
                 s.variants[0].disc = Some(ds[0]);
             }
@@ -235,7 +245,7 @@ pub fn behaviour() -> Behaviour {
     Behaviour {
         prop: "C04",
         rule: "enums over variant shapes x payload types (niches: bool, char, references, NonZero, Option, nested enum; zero-sized; wide) x repr (none, \
-               every primitive, C, `C, u8`, align(N)) x explicit discriminants (edges of the repr range, negative, non-monotonic) x variant counts \
+               every primitive, C alone with int / unsigned int ranges, `C, u8`, align(N)) x explicit discriminants (edges of the repr range, negative, non-monotonic) x variant counts \
                1..5 and 127/128/129/255/256/257; all ordered pairs of values are compared with a rendered oracle (declared discriminant across variants, \
                rank-ordered fields within a variant) from four memory placements (plain, repr(C) cells with 00 and FF neighbours, tuple slot, Box); \
                the oracle's discriminants are self-checked against `as` casts for fieldless enums; non-trivial = >=2 variants with no primitive repr, \
